@@ -500,6 +500,9 @@ class Ctx(object):
         self.str_domains = {}
         self.param_classes = {}
         self.defs = {}
+        self.read_log = []
+        self.inline_deps = {}
+        self.inline_cache = {}
 
     def fresh(self, name, sort=I):
         self.n += 1
@@ -523,7 +526,9 @@ class Ctx(object):
             return
         lineno = getattr(node, "lineno", 0) if node is not None else 0
         oid = "%s#%s@%d/%d" % (self.unit, kind, lineno, next(self.seq))
-        self.obls.append(Obl(oid, kind, list(self.facts) + list(st.pc), goal, lineno, text, self.unit))
+        ob = Obl(oid, kind, list(self.facts) + list(st.pc), goal, lineno, text, self.unit)
+        ob.nfacts = len(self.facts)  # hyps[:nfacts] is a prefix of the unit's final fact list
+        self.obls.append(ob)
 
     # heap field arrays -------------------------------------------------
     def sort_of_field(self, name):
@@ -541,6 +546,8 @@ class Ctx(object):
         raise Unsupported("unknown heap array %s" % name)
 
     def field_array(self, st, name, sort=None):
+        if self.read_log:
+            self.read_log[-1].add(name)
         if sort is None:
             sort = self.sort_of_field(name)
         if name not in st.heap:
@@ -1358,7 +1365,7 @@ class Exec(object):
             except AttributeError:
                 raise Unsupported("attribute %s of constant" % e.attr, e)
         if base.k == "ref":
-            if (base.x or "").startswith(("obj", "opaque", "file")) and e.attr in self.reg.fields:
+            if (base.x or "").startswith(("obj", "opaque", "file", "dict")) and e.attr in self.reg.fields:
                 return self.load_field(st, base, e.attr, e)
             return mk_conc(BoundMethod(base, e.attr))
         if base.k in ("int", "bool") and e.attr == "bit_length":
@@ -1419,6 +1426,7 @@ class BoundMethod(object):
 
 
 GHOST_NAMES = {
+    "existing_unchanged",
     "lo_has",
     "lo_row",
     "lo_get",
